@@ -15,9 +15,7 @@ import itertools
 import json
 import os
 import re
-import shutil
 import sys
-import tempfile
 
 from harness.core import sp
 
@@ -30,7 +28,10 @@ RULE = ("cases are dataclass modules rendered from the layout grammar: per class
         "documentation positions for one field and for two prefix-related fields (a, ab), random multi-field classes with "
         "permuted prefix-related names, trailing comments on the class line / decorator line, inheritance chains of length "
         "2-3 that override / re-declare fields or document an inherited field only in the subclass docstring, default values that are "
-        "string literals containing '#', and synthetic definition lines for the inline-comment extraction. Each module is "
+        "string literals containing '#', and synthetic definition lines for the inline-comment extraction. Histories: for "
+        "inheritance chains (plus an unrelated class declaring the same field names) the classes are looked up in ONE process "
+        "in several orders (most-derived first, base first twice, back and forth, interleaved, shuffled) through "
+        "get_attribute_docstring and through the parser's help, and every answer must be the documented one. Each module is "
         "checked by three ops: the real get_attribute_docstring, the "
         "real argparse action help / --help text, and the layout rendering. Non-trivial = at least two fields, or an "
         "inheritance chain, with at least one documentation position filled; distinct by canonical JSON.")
@@ -43,7 +44,7 @@ ASSUMPTIONS = [
 ]
 TRUSTED = ["CPython inspect.getsource / linecache / importlib", "docstring_parser"]
 EXHAUSTIVE = {"quick": False, "thorough": False}
-THOROUGH_ROUNDS = 6   # thorough tier: this many generator passes with derived PRNG states (vcheck)
+THOROUGH_ROUNDS = 3   # thorough tier: this many generator passes with derived PRNG states (vcheck)
 
 KINDS = ["below", "above", "inline", "cls"]           # precedence order after the explicit help=
 POSITIONS = ["help", "below", "above", "inline", "cls"]
@@ -190,6 +191,40 @@ def header_comment_case(rng):
     return {"stream": "layout", "classes": [c0], "target": "C0"}
 
 
+def history_cases(rng):
+    """one module, several look-ups in ONE process: the classes of an inheritance chain (and an unrelated class
+    with the same field names) are queried in different orders, repeatedly; every answer must be the one a fresh
+    process gives for that class (the extractor's caches must be invisible)."""
+    spec = chain_case(rng)
+    mk = Mk()
+    mk.n = 500                                           # markers of the unrelated class: mk5xxq
+    chain = [c["name"] for c in spec["classes"]]
+    root = spec["classes"][0]
+    classes = list(spec["classes"])
+    names = list(chain)
+    if rng.random() < 0.6:
+        # an unrelated dataclass declaring the same field names with its own documentation
+        fnames = [b["name"] for b in root["blocks"]]
+        subs = [rand_positions(rng) for _ in fnames]
+        blocks = [mk_block(rng, mk, n, s - {"cls"}) for n, s in zip(fnames, subs)]
+        sib = mk_class(rng, mk, "S0", None, blocks, [n for n, s in zip(fnames, subs) if "cls" in s])
+        classes.insert(rng.randrange(len(classes) + 1), sib)
+        names.append("S0")
+    base = dict(spec, stream="history", classes=classes)
+    orders = {
+        "derived-first": list(reversed(chain)) + [n for n in names if n not in chain],
+        "base-first-twice": [n for n in chain for _ in (0, 1)],
+        "derived-then-base-twice": list(reversed(chain)) + chain + list(reversed(chain)),
+        "interleaved": [x for pair in zip(list(reversed(chain)), names[::-1]) for x in pair] + names,
+        "shuffled": rng.sample(names * 2, len(names) * 2),
+    }
+    picks = ["derived-first", rng.choice([k for k in orders if k != "derived-first"])]
+    for pick in picks:
+        kinds = rng.choice(["help", "scan", "mixed"])
+        qs = [[n, (rng.choice(["scan", "help"]) if kinds == "mixed" else kinds)] for n in orders[pick]]
+        yield dict(base, order=pick, queries=qs, target=chain[-1])
+
+
 LINE_TEMPLATES = ["{n}: int = 0", "    {n}: int", "    {n} : str = 'x'  # c", "{n} = 4", "    # {n}: int", "{{{n}: int}}",
                   "    {n}: Dict[str, int] = field(default_factory=dict)", "    {n}: int = field(default_factory=lambda: 3)",
                   "    {n} = d[1:2]", "    def {n}(self) -> int:", "class {n}(Base):", "    {n}: int  #: doc", "    {n} #:= 3",
@@ -260,6 +295,10 @@ def gen(rng, tier):
         yield {"op": "doc.help", "case": spec}
         if spec["stream"] == "layout":
             yield {"op": "doc.layout", "case": spec}
+    # (d') histories: several classes of one module looked up in one process, in different orders
+    for _ in range(60 if quick else 400):
+        for spec in history_cases(rng):
+            yield {"op": "doc.history", "case": spec}
     # (e) the inline-comment extraction on synthetic definition lines (strings with '#', brackets, fallbacks)
     for t in INLINE_TEMPLATES:
         for cm in ("", "  # mk900q inline x", "#mk901q tight", "  #  mk902q # twice  "):
@@ -366,11 +405,10 @@ class LoadedModule:
         import linecache
 
         self._linecache = linecache
-        self.parent = _proc_dir()
-        self.dir = tempfile.mkdtemp(prefix="m", dir=self.parent)
+        self.parent = _proc_dir()                     # ${TMPDIR:-/tmp}/spverif.<pid>/ (one file per case in flight)
         tag = hashlib.sha256(self.text.encode()).hexdigest()[:10]
         self.name = f"spverif_c19_{os.getpid()}_{next(_counter)}_{tag}"
-        self.path = os.path.join(self.dir, self.name + ".py")
+        self.path = os.path.join(self.parent, self.name + ".py")
         with open(self.path, "w") as f:
             f.write(self.text)
         old = sys.dont_write_bytecode
@@ -387,7 +425,10 @@ class LoadedModule:
     def __exit__(self, *a):
         sys.modules.pop(self.name, None)
         self._linecache.cache.pop(self.path, None)
-        shutil.rmtree(self.dir, ignore_errors=True)
+        try:
+            os.unlink(self.path)
+        except OSError:
+            pass
         try:
             os.rmdir(self.parent)          # succeeds when no other case of this process is in flight
         except OSError:
@@ -425,13 +466,29 @@ def impl(case):
 
         return {"def": D._contains_field_definition(c["line"]), "defines": D._line_contains_definition_for(c["line"], c["name"]),
                 "empty": D._is_empty(c["line"]), "comment": D._is_comment(c["line"])}
-    from simple_parsing.docstring import get_attribute_docstring
-
     text = render_module(c)
     with LoadedModule(text) as mod:
-        cls = getattr(mod, c["target"])
+        if op == "doc.history":
+            answers = []
+            for cname, kind in c["queries"]:
+                answers.append(_observe(getattr(mod, cname), "doc.scan" if kind == "scan" else "doc.help", with_mro=False))
+            info = {}
+            for (cname, _), a in zip(c["queries"], answers):           # after all look-ups: what the model needs
+                if cname not in info:
+                    info[cname] = _mro_info(getattr(mod, cname))
+                a["mro"] = info[cname]
+            return {"answers": answers}
+        return _observe(getattr(mod, c["target"]), op)
+
+
+def _observe(cls, op, with_mro=True):
+    from simple_parsing.docstring import get_attribute_docstring
+
+    if True:
         names = [f.name for f in dataclasses.fields(cls)]
-        obs = {"names": names, "mro": _mro_info(cls)}
+        obs = {"names": names}
+        if with_mro:
+            obs["mro"] = _mro_info(cls)
         if op in ("doc.scan", "doc.layout"):
             docs = {}
             for n in names:
@@ -480,8 +537,17 @@ def impl(case):
     return obs
 
 
+def _subcases(case, obs):
+    """doc.history: the per-query one-shot cases (op, spec with that class as target) and their answers"""
+    c = case["case"]
+    for (cname, kind), a in zip(c["queries"], obs["answers"]):
+        yield {"op": "doc.scan" if kind == "scan" else "doc.help", "case": dict(c, target=cname)}, a, kind
+
+
 def model_case(case, obs):
     op, c = case["op"], case["case"]
+    if op == "doc.history":
+        return {"queries": [dict(model_case(sub, a), kind=kind) for sub, a, kind in _subcases(case, obs)]}
     if op in ("doc.line", "doc.inline"):
         return c
     if op == "doc.scan":
@@ -505,6 +571,8 @@ def model_case(case, obs):
 
 def project(case, obs):
     op = case["op"]
+    if op == "doc.history":
+        return {"answers": [project(sub, a) for sub, a, _ in _subcases(case, obs)]}
     if op == "doc.scan":
         return {"docs": obs["docs"]}
     if op == "doc.help":
@@ -636,6 +704,15 @@ def oracle(case, obs):
                     return [{"clause": "inline-own-comment",
                              "detail": f"inline comment of {line!r}: got {obs['inline']!r}, it is {exp!r}"}]
         return []
+    if op == "doc.history":
+        # the property, per look-up, AFTER the other classes were looked up in the same process
+        fails = []
+        for i, (sub, a, kind) in enumerate(_subcases(case, obs)):
+            before = [q[0] for q in spec["queries"][:i]]
+            for f in oracle(sub, a):
+                fails.append(dict(f, query=i, cls=sub["case"]["target"],
+                                  detail=f"look-up #{i} ({kind} of class {sub['case']['target']}, after {before}): {f.get('detail')}"))
+        return fails
     fails = []
     own = owner_of(spec)
     names = all_field_names(spec)
@@ -704,6 +781,8 @@ def nontrivial(case, obs):
         return bool(obs["def"])
     if case["op"] == "doc.inline":
         return "#" in case["case"]["line"] and "inline" in obs
+    if case["op"] == "doc.history":
+        return len({q[0] for q in case["case"]["queries"]}) >= 2 and n_filled(case["case"]) >= 1
     spec = case["case"]
     nf = sum(len(c["blocks"]) for c in spec["classes"])
     return (nf >= 2 or len(spec["classes"]) >= 2) and n_filled(spec) >= 1
@@ -717,6 +796,12 @@ def tags(case, obs):
     if op == "doc.inline":
         return t + ["inline:" + ("notdef" if "notdef" in obs else "raise" if "raise" in obs else "text" if obs["inline"] else "empty")]
     spec = case["case"]
+    if op == "doc.history":
+        t.append(f"order:{spec['order']}")
+        t.append(f"queries:{min(8, len(spec['queries']))}")
+        t.append("unrelated-class:" + ("yes" if any(c["name"] == "S0" for c in spec["classes"]) else "no"))
+        t += ["query:" + k for k in {q[1] for q in spec["queries"]}]
+        return sorted(set(t))
     t.append(f"stream:{spec['stream']}")
     t.append(f"classes:{len(spec['classes'])}")
     t.append(f"fields:{min(6, sum(len(c['blocks']) for c in spec['classes']))}")
@@ -756,8 +841,18 @@ def shrink(case):
         return {"op": op, "case": s}
 
     cls = spec["classes"]
+    if op == "doc.history":
+        qs = spec["queries"]
+        for i in range(len(qs)):
+            if len(qs) > 1:
+                yield emit(dict(spec, queries=qs[:i] + qs[i + 1:]))
+        used = {q[0] for q in qs}
+        bases = {c["base"] for c in cls}
+        for ci, c in enumerate(cls):
+            if c["name"] not in used and c["name"] not in bases:
+                yield emit(dict(spec, classes=cls[:ci] + cls[ci + 1:]))
     # drop the most-derived class (if it is the target)
-    if len(cls) > 1 and spec["target"] == cls[-1]["name"]:
+    elif len(cls) > 1 and spec["target"] == cls[-1]["name"]:
         yield emit(dict(spec, classes=cls[:-1], target=cls[-2]["name"]))
     for ci, c in enumerate(cls):
         for bi in range(len(c["blocks"])):
@@ -786,6 +881,13 @@ def shrink(case):
 
 def neighbours(case, rng):
     if case["op"] in ("doc.line", "doc.inline"):
+        return
+    if case["op"] == "doc.history":
+        spec = case["case"]
+        chain = [c["name"] for c in spec["classes"] if c["name"] != "S0"]
+        for kind in ("help", "scan"):
+            for order in (list(reversed(chain)) + chain, chain + list(reversed(chain))):
+                yield {"op": "doc.history", "case": dict(spec, queries=[[n, kind] for n in order])}
         return
     for op in ("doc.scan", "doc.help"):
         yield {"op": op, "case": case["case"]}
